@@ -56,6 +56,13 @@ pub(crate) trait EvictionStore<K, V>: Send {
     }
 }
 
+/// Entries reserved when a store is created. `max_size` is a bound, not a forecast:
+/// reserving it all up front costs gigabytes (or aborts the process) for large bounds.
+const PREALLOCATION_LIMIT: NonZeroUsize = match NonZeroUsize::new(1024) {
+    Some(n) => n,
+    None => unreachable!(),
+};
+
 /// LRU (Least Recently Used) cache storage.
 pub(crate) struct LruStore<K, V> {
     cache: lru::LruCache<K, V>,
@@ -64,9 +71,11 @@ pub(crate) struct LruStore<K, V> {
 impl<K: Hash + Eq, V> LruStore<K, V> {
     pub(crate) fn new(capacity: usize) -> Self {
         let cap = NonZeroUsize::new(capacity).unwrap_or(NonZeroUsize::new(100).unwrap());
-        Self {
-            cache: lru::LruCache::new(cap),
-        }
+        // `LruCache::new` reserves the whole capacity; reserve a bounded amount and
+        // then raise the bound (growing the bound does not allocate)
+        let mut cache = lru::LruCache::new(cap.min(PREALLOCATION_LIMIT));
+        cache.resize(cap);
+        Self { cache }
     }
 }
 
@@ -102,8 +111,8 @@ pub(crate) struct LfuStore<K, V> {
 impl<K: Hash + Eq + Clone, V> LfuStore<K, V> {
     pub(crate) fn new(capacity: usize) -> Self {
         Self {
-            data: HashMap::with_capacity(capacity),
-            frequencies: HashMap::with_capacity(capacity),
+            data: HashMap::with_capacity(capacity.min(PREALLOCATION_LIMIT.get())),
+            frequencies: HashMap::with_capacity(capacity.min(PREALLOCATION_LIMIT.get())),
             capacity: capacity.max(1),
         }
     }
@@ -177,8 +186,8 @@ pub(crate) struct FifoStore<K, V> {
 impl<K: Hash + Eq + Clone, V> FifoStore<K, V> {
     pub(crate) fn new(capacity: usize) -> Self {
         Self {
-            data: HashMap::with_capacity(capacity),
-            order: VecDeque::with_capacity(capacity),
+            data: HashMap::with_capacity(capacity.min(PREALLOCATION_LIMIT.get())),
+            order: VecDeque::with_capacity(capacity.min(PREALLOCATION_LIMIT.get())),
             capacity: capacity.max(1),
         }
     }
